@@ -40,7 +40,7 @@ def main():
         print("baseline tests:", base, flush=True)
         for d in dirs:
             for k in sorted(os.listdir(d)):
-                md = os.path.join(d, k)
+                md = os.path.abspath(os.path.join(d, k))
                 patch = os.path.join(md, "patch.diff")
                 demo = os.path.join(md, "demo.cc")
                 if not (os.path.isfile(patch) and os.path.isfile(demo)):
